@@ -158,6 +158,18 @@ def scalar_domain(entry, wide=False):
     return out
 
 
+_LIB_CLASSES = {}
+
+
+def lib_class(cname):
+    """The library's dictionary class of that name (any module), None when it does not exist."""
+    if not _LIB_CLASSES:
+        from bromelia.base import DiameterAVP
+        for c in DiameterAVP.__subclasses__():
+            _LIB_CLASSES[c.__name__] = c      # a later definition of the same name shadows the earlier
+    return _LIB_CLASSES.get(cname)
+
+
 class Abs:
     """One abstract AVP. kind 'dict': class name + constructor value (+ member list for Grouped);
     kind 'generic': explicit code / flags / vendor / data."""
@@ -196,7 +208,6 @@ class Abs:
 
     # library object, through the public constructors only
     def build(self):
-        import bromelia.avps as A
         from bromelia.base import DiameterAVP
         if self.kind == "generic":
             if self.form == "str":
@@ -206,7 +217,7 @@ class Abs:
             else:
                 data = self.data
             return DiameterAVP(code=self.code, vendor_id=self.vendor, flags=self.flags, data=data)
-        klass = getattr(A, self.cls)
+        klass = lib_class(self.cls)
         if self.members is not None:
             if self.value == "bytes":
                 return klass(refcodec.enc_avps([m.abstract() for m in self.members]))
